@@ -33,7 +33,9 @@ Collect(ans) ==
 
 Faulted(bus, ans) ==
     IF bus.fault.kind # "none" /\ bus.nans + 1 = bus.fault.at
-    THEN (IF bus.fault.kind = "silent" THEN Silent ELSE <<"err", 255>>)
+    THEN (IF bus.fault.kind = "silent" THEN Silent
+          ELSE IF bus.fault.kind = "errsame" /\ ans[1] = "val" THEN <<"err", ans[2]>>   \* garbled, same data bits
+          ELSE <<"err", 255>>)
     ELSE ans
 
 DevAddressed(d, dest) ==
